@@ -83,6 +83,8 @@ type model struct {
 	names []string
 	ch    []mchal
 	mk    func() hash.Hash
+	// padShort: the hasher left-pads short writes (MiMC); the model pads them itself
+	padShort bool
 }
 
 func (m *model) idx(name string) int {
@@ -113,16 +115,26 @@ func (m *model) compute(name string) ([]byte, bool) {
 		return nil, false
 	}
 	h := m.mk()
-	if _, err := h.Write([]byte(name)); err != nil {
+	// MiMC documents that a write shorter than a block is left-padded with zeros to one block: the model does that
+	// padding itself, so that its hasher only ever sees whole blocks (the padding code is part of what is judged)
+	pad := func(b []byte) []byte {
+		if bs := h.BlockSize(); m.padShort && len(b) > 0 && len(b) < bs {
+			p := make([]byte, bs)
+			copy(p[bs-len(b):], b)
+			return p
+		}
+		return b
+	}
+	if _, err := h.Write(pad([]byte(name))); err != nil {
 		return nil, false
 	}
 	if i > 0 {
-		if _, err := h.Write(m.ch[i-1].value); err != nil {
+		if _, err := h.Write(pad(m.ch[i-1].value)); err != nil {
 			return nil, false
 		}
 	}
 	for _, b := range m.ch[i].bindings {
-		if _, err := h.Write(b); err != nil {
+		if _, err := h.Write(pad(b)); err != nil {
 			return nil, false
 		}
 	}
@@ -213,7 +225,7 @@ type exec struct {
 
 func newExec(spec hashSpec, names []string) *exec {
 	e := &exec{t: fiatshamir.NewTranscript(spec.mk(), names...), names: names, spec: spec, held: map[string][]byte{}, heldWant: map[string][]byte{}}
-	e.m = &model{names: names, ch: make([]mchal, len(names)), mk: spec.mk}
+	e.m = &model{names: names, ch: make([]mchal, len(names)), mk: spec.mk, padShort: strings.HasPrefix(spec.name, "mimc")}
 	return e
 }
 
